@@ -153,6 +153,7 @@ impl Service<Request<Bytes>> for GaugeSvc {
         let id: u64 = req.headers().get("id").and_then(|v| v.parse().ok()).unwrap_or(u64::MAX);
         let dur: u64 = req.headers().get("dur-ms").and_then(|v| v.parse().ok()).unwrap_or(0);
         let fail = req.headers().contains_key("fail");
+        let instant = req.headers().contains_key("instant");
         let peer = req.peer_id().copied();
         let now = self.fabric.now_ns();
         {
@@ -169,7 +170,9 @@ impl Service<Request<Bytes>> for GaugeSvc {
         let guard = GaugeGuard { st: self.st.clone(), fabric: self.fabric.clone(), peer, id };
         Box::pin(async move {
             let _g = guard;
-            tokio::time::sleep(Duration::from_millis(dur)).await;
+            if !instant {
+                tokio::time::sleep(Duration::from_millis(dur)).await;
+            }
             if fail {
                 Err(Status::new(StatusCode::InternalServerError))
             } else {
@@ -370,6 +373,33 @@ fn run_c18_direct(input: RunInput) -> ScenFuture {
                     break;
                 }
             }
+        }
+        // ---- one task working through a backlog: hundreds of requests one after the other through
+        //      one clone, with handlers that answer at once, so the task never yields in between
+        //      (what a dispatcher in front of the layer does; tokio's cooperative budget of the
+        //      task is used up on the way). Never more than one request is in flight, so with a
+        //      limit of at least one every single one is served ----
+        if limit > 0 && !w.violated() && w.flag("dispatcher_works_through_a_backlog", 0.3) {
+            let n_backlog = w.param("backlog", 130, 700) as u64;
+            let mut svc = layered.clone();
+            let mut refused = Vec::new();
+            for k in 0..n_backlog {
+                let p = peers[(k as usize) % n_peers];
+                let mut req = Request::new(Bytes::new()).with_extension(p).with_header("id", (3_000_000 + k).to_string()).with_header("instant", "1");
+                if k % 7 == 3 {
+                    req = req.with_header("fail", "1");
+                }
+                match tokio::time::timeout(Duration::from_secs(5), svc.ready().await.unwrap().call(req)).await {
+                    Ok(Ok(_)) => {}
+                    Ok(Err(s)) if s.status() == StatusCode::InternalServerError && k % 7 == 3 => {}
+                    Ok(Err(s)) => refused.push((k, format!("{:?}", s.status()))),
+                    Err(_) => refused.push((k, "never answered".into())),
+                }
+            }
+            if let Some((k, what)) = refused.first() {
+                w.violate("refused-below-limit", format!("{key} backlog"), format!("request {k} of a backlog of {n_backlog} worked through by one task (one request at a time, limit {limit}): {what}; {} of them not served", refused.len()));
+            }
+            w.probe("backlog-phase");
         }
         if reached {
             w.mark_overlap();
